@@ -2,12 +2,14 @@
 
 use crate::core::{RunCtx, harness_error};
 
+pub mod c14;
 pub mod c20;
 
-pub const ALL: &[&str] = &["C20"];
+pub const ALL: &[&str] = &["C14", "C20"];
 
 pub fn run(id: &str, ctx: &RunCtx) -> i32 {
     match id {
+        "C14" => c14::run(ctx),
         "C20" => c20::run(ctx),
         _ => harness_error(&format!("unknown property id {id}")),
     }
@@ -29,7 +31,22 @@ pub fn replay(path: &str) -> i32 {
     };
     let prop = v["property"].as_str().unwrap_or("");
     match prop {
+        "C14" => c14::replay(&v),
         "C20" => c20::replay(&v),
         _ => harness_error(&format!("no replay for property {prop:?}")),
+    }
+}
+
+/// common tail of the replay functions
+pub fn replay_verdict(prop: &str, r: &crate::core::Report) -> i32 {
+    if r.violation_count.is_empty() {
+        println!("replay: property {prop} held on the recorded case");
+        0
+    } else {
+        for v in &r.violations {
+            println!("replay: still violated: {} {}", v.signature, v.witness);
+        }
+        println!("VIOLATION property={prop} replay=(replayed)");
+        1
     }
 }
